@@ -239,8 +239,11 @@ def far_reuse_case(draw, formats, tier, tolerances=None):
     r = R / k
     m = {"scale": (r, 0, 0, r), "mirror": (-r, 0, 0, r), "rot90": (0, r, -r, 0)}[kind]
     near = draw(st.sampled_from([0.5, 0.8, 0.8, 1.3]))
-    sx = vbs * f * near * draw(st.floats(0.1, 0.7))
-    sy = vbs * (asc / emh - f * near * draw(st.floats(-0.2, 0.7)))
+    # near = 1.3: the copy really lies beyond 32768 / k on one axis or both (the inverse of the reuse transform leaves 16.16 and
+    # reuse has to be abandoned for a gradient fill, while the forward transform still fits)
+    lo, hi = (0.6, 1.0) if near > 1 else (0.1, 0.7)
+    sx = min(vbs * f * near * draw(st.floats(lo if draw(st.booleans()) else 0.1, hi)), 0.98 * vbs)
+    sy = vbs * (asc / emh - f * near * draw(st.floats(-0.2 if near <= 1 else lo, hi)))
     small = transform_cmds(unit, m + (sx, min(max(sy, 0.02 * vbs), 0.98 * vbs)))
     span = (vbs * draw(st.floats(0.0, 0.3)), vbs * draw(st.floats(0.0, 0.3)), vbs * draw(st.floats(0.7, 1.0)), vbs * draw(st.floats(0.7, 1.0)))
     grad = draw(gradient_paint({}, span).filter(lambda p: p["units"] == "user"))
